@@ -34,6 +34,7 @@ def make_interp(counters=('c',)):
     it.builtins['SIZEOF'] = 1
     it.builtins['prange'] = lambda n, **kw: it.builtins['range'](n)
     it.builtins['PTR'] = lambda arr, *idx: Ptr(arr, idx)
+    it.builtins['CARRAY'] = lambda n: [None] * pysym._toint(n)
     return it
 
 
